@@ -169,7 +169,8 @@ def enum_fixtures(tier):
     for f in ("tests/testdata/repodata_sample.json", "tests/testdata/repodata_short_signed_sample.json"):
         for i in range(3):
             yield {"file": f, "seed": keys.POOL[i].hex()}
-    for n in ([65, 300] if tier == "quick" else [65, 1025, 5000]):
+    # sizes: small, and big with totals that are no multiple of 2, 4, 8 ... (n + n // 2 artifacts: 97, 5002; 1537, 7500, 12286)
+    for n in ([65, 3335] if tier == "quick" else [65, 1025, 3335, 5000, 8191]):
         yield {"synthetic": n, "seed": keys.POOL[3].hex()}
 
 
